@@ -1,21 +1,35 @@
 /* VERIF-UNIT
 {
  "name": "bb_u32_list_del",
- "props": ["C02", "C06"],
+ "props": [
+  "C02",
+  "C06"
+ ],
  "level": "U",
- "tier": "wip",
+ "tier": "quick",
  "harness": "h_bb_del",
- "enforce": ["ext2fs_u32_list_del"],
- "replace": ["ext2fs_u32_list_find"],
+ "enforce": [
+  "ext2fs_u32_list_del"
+ ],
+ "replace": [
+  "ext2fs_u32_list_find"
+ ],
  "loop_contracts": true,
- "defines": ["EXT2_CUSTOM_MEMORY_ROUTINES"],
+ "defines": [
+  "EXT2_CUSTOM_MEMORY_ROUTINES"
+ ],
  "unwind": 10,
  "unwind_reason": "no loop of the real code is unwound (in-place loop contract); 10 covers the loops of the contract-instrumentation library",
- "functions": ["lib/ext2fs/badblocks.c:ext2fs_u32_list_del"],
- "assumes": ["num <= size <= 2^30 (int fields)",
-	     "well_formed enters as instances (see bb_common.h); ext2fs_u32_list_find is replaced by its contract (proved by bb_u32_list_find)",
-	     "needs the loop anchors of hooks-pending/ds.diff in lib/ext2fs/badblocks.c"],
- "native": false
+ "functions": [
+  "lib/ext2fs/badblocks.c:ext2fs_u32_list_del"
+ ],
+ "assumes": [
+  "num <= size <= 2^30 (int fields)",
+  "well_formed enters as instances (see bb_common.h); ext2fs_u32_list_find is replaced by its contract (proved by bb_u32_list_find)",
+  "needs the loop anchors of hooks-pending/ds.diff in lib/ext2fs/badblocks.c"
+ ],
+ "native": false,
+ "tier_after_hooks": "quick"
 }
 */
 /*
